@@ -17,10 +17,10 @@ from vf.gen import program as pg
 PROP = "C04"
 LEVEL = "exploration"
 RULE = (
-    "E1 programs (slots flavour) decorated with js/css/Media per class (shared Media files, single inheritance, dict-form css, blank "
+    "E1 programs (slots flavour) decorated with js/css/Media per class (shared Media files, single and multiple inheritance, Media.extend = False / [classes], dict-form css, blank "
     "js), class names from {ASCII, non-ASCII, dashed, dotted}; page wrapped as <html><head>..</head><body>..</body></html> with or "
     "without {% component_*_dependencies %} placeholders, or bare; document and fragment; delivered through render_dependencies(), "
-    "the middleware and Component.render(); distinct by (program, page shape, type); non-trivial = >=2 rendered classes carry assets "
+    "the middleware and Component.render(), followed by two later pages over the same classes that render 1-2 of them alone; distinct by (program, page shape, type); non-trivial = >=2 rendered classes carry assets "
     "and >=1 class of the library is not rendered"
 )
 ASSUMPTIONS = [
@@ -195,6 +195,33 @@ def check_program(env, rec, prog, rng, seedinfo):
             if out2 != str(outs["document"]):
                 rec.violation("routes-disagree", case, {"what": "middleware output differs from render_dependencies()", "a": out2[:400], "b": str(outs["document"])[:400]})
                 return nontrivial
+            # history: further pages over the SAME classes (their media now resolved and cached), each rendering a few of the
+            # classes on their own - what a class delivers must not depend on what was rendered before
+            names = list(prog["classes"])
+            for k in range(2):
+                subset = rng.sample(names, rng.randint(1, min(2, len(names))))
+                parents = [b for sp in prog["classes"].values() for b in assets.direct_bases(sp) + [x for x in [(sp.get("media") or {}).get("extend")] if isinstance(x, list) for x in x]]
+                if parents and rng.random() < 0.6:
+                    subset = [rng.choice(parents)]  # a class that others inherit / extend from, alone on the page
+                prog2 = {"classes": prog["classes"], "page": [["comp", c, {"kwargs": {}}, None] for c in subset], "page_ctx": {}}
+                ref2 = e1run.reference(prog2, mode)
+                if ref2[0] != "ok":
+                    continue
+                exp2 = assets.expected_assets(prog, list(ref2[2].classes_in_order))
+                src2 = wrap(pg.ser_nodes(prog2["page"], built.reg), "headbody")
+                case = dict(base_case, route="later-page", later_page=subset)
+                try:
+                    raw2 = env.Template(src2).render(env.Context({}))
+                    for typ in ("document", "fragment"):
+                        case = dict(base_case, route="later-page", later_page=subset, type=typ)
+                        out3 = env.render_dependencies(raw2, type=typ)
+                        rec.observe("documents-judged")
+                        rec.count("later_pages_judged")
+                        if not judge(rec, case, out3, exp2, "headbody", typ, prog["classes"], prog):
+                            return nontrivial
+                except Exception as e:  # noqa: BLE001
+                    rec.violation("later-page-raised-" + type(e).__name__, case, {"what": str(e)[:400]})
+                    return nontrivial
     finally:
         built.dispose()
     return nontrivial
